@@ -238,7 +238,9 @@ func (ex *Exec) nestedStore(arr *Term, idxs []*Term, v *Term) *Term {
 func (ex *Exec) newRef(st *State) *Term {
 	ex.allocN++
 	if ex.L.bv {
-		return ex.tb.Fresh("alloc", BVSort(64))
+		r := ex.tb.Fresh("alloc", BVSort(64))
+		ex.assume(st, ex.tb.Ne(r, ex.refLit(0)))
+		return r
 	}
 	return ex.tb.Add(ex.allocBase, ex.tb.Int(int64(ex.allocN)))
 }
